@@ -139,8 +139,8 @@ def r1_validators(chk, repo):
 
 
 # ------------------------------------------------------------------------------------ R2
-def r2_case_split(chk, repo):
-    chk.describe("C07.R2", "splitting the run annotations at t is an exhaustive, exclusive three-way case split that equals its specification on every weak ordering of (t, start, end)")
+def r2_case_split(chk, repo, rule="C07.R2"):
+    chk.describe(rule, "splitting the run annotations at t is an exhaustive, exclusive three-way case split that equals its specification on every weak ordering of (t, start, end)")
     f = repo.func("_split_runs_in_chunk", CHUNK)
     loops = [n for n in walk_body(f.node) if isinstance(n, ast.For)]
     chk.need(len(loops) == 1, "C07.R2: loop over the runs in _split_runs_in_chunk not found")
@@ -182,7 +182,7 @@ def r2_case_split(chk, repo):
                     taken.append(sides)
                     break
         except AnalysisError as ex:
-            chk.fail("C07.R2", f, lp, f"branch conditions are no longer comparison-only: {ex}")
+            chk.fail(rule, f, lp, f"branch conditions are no longer comparison-only: {ex}")
             return
         # independent evaluation of all tests for exclusivity
         trues = [i for i, (test, sides) in enumerate(chain) if test is not None and evaluate(test, env, symmap)]
@@ -194,7 +194,7 @@ def r2_case_split(chk, repo):
         if not taken or got_first != want_first or got_second != want_second:
             bad = (dict(env), len(trues), (got_first, got_second), (want_first, want_second))
             break
-    chk.check(bad is None, "C07.R2", f, lp,
+    chk.check(bad is None, rule, f, lp,
               "run annotation split is wrong for ordering " + (f"{describe(bad[0])}: {bad[1]} branch condition(s) hold, run goes to (first={bad[2][0]}, second={bad[2][1]}), specification (first={bad[3][0]}, second={bad[3][1]})" if bad else ""),
               site_text=f"_split_runs_in_chunk: a branch is taken and the run lands on the specified side(s) on {n_ord} orderings of (t, start, end)", site={"function": f.qualname, "construct": "case split"})
     chk.exhaustive = True
@@ -202,14 +202,14 @@ def r2_case_split(chk, repo):
     # both halves of a straddled run are cut at t
     mids = [s for test, sides in chain if len(sides) == 2 for s in (lp,)]
     texts = [norm(x) for x in walk_body(f.node) if isinstance(x, ast.Dict)]
-    chk.check(any("'end': int(t)" in t or f"'end': int({tparam})" in t for t in texts) and any(f"'start': int({tparam})" in t for t in texts), "C07.R2", f, None, "a straddled run is not cut at the split time on both sides", site_text="_split_runs_in_chunk: straddled run -> [start, t) and [t, end)")
+    chk.check(any("'end': int(t)" in t or f"'end': int({tparam})" in t for t in texts) and any(f"'start': int({tparam})" in t for t in texts), rule, f, None, "a straddled run is not cut at the split time on both sides", site_text="_split_runs_in_chunk: straddled run -> [start, t) and [t, end)")
     pops = [c for c in calls_in(f.node) if call_name(c) == "_pop_out_empty_run_id"]
-    chk.check(len(pops) == 2, "C07.R2", f, None, "zero-length run fragments are not removed from both sides", site_text="_split_runs_in_chunk: empty fragments popped on both sides", nontrivial=False)
+    chk.check(len(pops) == 2, rule, f, None, "zero-length run fragments are not removed from both sides", site_text="_split_runs_in_chunk: empty fragments popped on both sides", nontrivial=False)
     mc = repo.func("_mergable_check", CHUNK)
     cmp_ = [n for n in walk_body(mc.node) if isinstance(n, ast.Compare) and "[i][0]" in norm(n) and "[i - 1][1]" in norm(n)]
-    chk.check(bool(cmp_) and all(isinstance(c.ops[0], ast.NotEq) for c in cmp_), "C07.R2", mc, None, "continuity of concatenated run fragments is not tested as start[i] != end[i-1]", site_text="_mergable_check: start[i] != end[i-1] -> raise")
+    chk.check(bool(cmp_) and all(isinstance(c.ops[0], ast.NotEq) for c in cmp_), rule, mc, None, "continuity of concatenated run fragments is not tested as start[i] != end[i-1]", site_text="_mergable_check: start[i] != end[i-1] -> raise")
     so = [c for c in calls_in(mc.node) if isinstance(c.func, ast.Attribute) and c.func.attr == "sort"]
-    chk.check(bool(so), "C07.R2", mc, None, "run fragments are not sorted by start before the continuity test", site_text="_mergable_check: fragments sorted by start", nontrivial=False)
+    chk.check(bool(so), rule, mc, None, "run fragments are not sorted by start before the continuity test", site_text="_mergable_check: fragments sorted by start", nontrivial=False)
 
 
 # ------------------------------------------------------------------------------------ R3
